@@ -72,7 +72,26 @@ def _gate_states(ctx, fi):
                     d[t.elts[0].id] = frozenset(['joliet'])
                 elif isinstance(t, ast.Name):
                     src = None
-                    if isinstance(v, ast.Name) and v.id in d:
+
+                    def one(v):
+                        if isinstance(v, ast.Name) and v.id in d:
+                            return d[v.id]
+                        if isinstance(v, ast.Attribute) and v.attr == '_rr_moved_name' and norm(v.value) == 'self':
+                            return frozenset(['relname'])
+                        try:
+                            if isinstance(fold(v, ctx.m, mi, fi.cls), bytes):
+                                return frozenset(['const'])
+                        except NotConst:
+                            pass
+                        return None
+                    if isinstance(v, ast.IfExp):
+                        # `A if cond else B`: the name is gated if both arms are
+                        a_, b_ = one(v.body), one(v.orelse)
+                        if a_ is not None and b_ is not None:
+                            src = a_ | b_
+                    if src is not None:
+                        pass
+                    elif isinstance(v, ast.Name) and v.id in d:
                         src = d[v.id]
                     elif isinstance(v, ast.BinOp) and isinstance(v.op, ast.Add) and isinstance(v.left, ast.Name) and v.left.id in d:
                         src = d[v.left.id]      # gated name + generated suffix
